@@ -412,14 +412,23 @@ func (a *absint) lenOf(v ssa.Value) ival {
 		return r
 	case *ssa.Call:
 		// library contract: hash.Hash.Sum(nil) of an HMAC-SHA256 is 32 bytes
-		if x.Call.IsInvoke() && x.Call.Method.Name() == "Sum" && len(x.Call.Args) == 1 && isNilConst(x.Call.Args[0]) {
+		// (Sum(b) appends the digest to b)
+		if x.Call.IsInvoke() && x.Call.Method.Name() == "Sum" && len(x.Call.Args) == 1 {
 			if h, _ := callOf(x.Call.Value); h != nil && h.Call.StaticCallee() != nil && h.Call.StaticCallee().String() == "crypto/hmac.New" {
 				if f, ok := h.Call.Args[0].(*ssa.Function); ok {
+					var d int64
 					switch f.String() {
 					case "crypto/sha256.New":
-						return ival{32, 32}
+						d = 32
 					case "crypto/sha1.New":
-						return ival{20, 20}
+						d = 20
+					}
+					if d > 0 {
+						if isNilConst(x.Call.Args[0]) {
+							return ival{d, d}
+						}
+						l0 := a.lenOf(x.Call.Args[0])
+						return ival{sadd(l0.lo, d), sadd(l0.hi, d)}
 					}
 				}
 			}
@@ -433,6 +442,32 @@ func (a *absint) lenOf(v ssa.Value) ival {
 				}
 			}
 			return ival{l0.lo, inf}
+		}
+		// library contracts on lengths
+		switch name := stdCallee(&x.Call); name {
+		case "(encoding/binary.bigEndian).AppendUint16", "(encoding/binary.littleEndian).AppendUint16",
+			"(encoding/binary.bigEndian).AppendUint32", "(encoding/binary.littleEndian).AppendUint32",
+			"(encoding/binary.bigEndian).AppendUint64", "(encoding/binary.littleEndian).AppendUint64":
+			k := uintWidth(name[strings.LastIndex(name, ".")+1:], "AppendUint")
+			if n := len(x.Call.Args); k > 0 && n >= 2 {
+				l0 := a.lenOf(x.Call.Args[n-2])
+				return ival{sadd(l0.lo, k), sadd(l0.hi, k)}
+			}
+		case "bytes.Clone", "slices.Clone":
+			if len(x.Call.Args) == 1 {
+				return a.lenOf(x.Call.Args[0])
+			}
+		case "slices.Concat":
+			if len(x.Call.Args) == 1 {
+				if els := variadicElemsOrdered(x.Call.Args[0]); els != nil {
+					r := ival{0, 0}
+					for _, e := range els {
+						le := a.lenOf(e)
+						r = ival{sadd(r.lo, le.lo), sadd(r.hi, le.hi)}
+					}
+					return r
+				}
+			}
 		}
 		// a module helper returning a slice: its length post-condition (the length equals one
 		// of its integer arguments, or the length of one of its slice arguments, on every
@@ -1409,6 +1444,9 @@ func (a *absint) proveLEd(x, y Term, at ssa.Instruction, depth int) (bool, strin
 	if ok, why := a.provePhiEdges(x, y, at, depth, false); ok {
 		return true, why
 	}
+	if ok, why := a.provePhiLenEdges(x, y, depth); ok {
+		return true, why
+	}
 	if ok, why := a.proveLinear(x, y, at, 0); ok {
 		return true, why
 	}
@@ -1640,6 +1678,57 @@ func (a *absint) provePhiEdges(x, y Term, at ssa.Instruction, depth int, strict 
 		return false, ""
 	}
 	return true, "holds for the operand of every incoming edge of the phi"
+}
+
+// provePhiLenEdges: the dual for a merged slice on the right: k ≤ len(phi(s1, s2, …)) holds
+// when k ≤ len(si) holds on every live incoming edge (k a constant).
+func (a *absint) provePhiLenEdges(x, y Term, depth int) (bool, string) {
+	if !y.Len || x.Len || depth <= 0 {
+		return false, ""
+	}
+	if _, isK := constInt(x.V); !isK {
+		return false, ""
+	}
+	phi, ok := stripIface(y.V).(*ssa.Phi)
+	if !ok || a.phiProof[phi] {
+		return false, ""
+	}
+	if a.phiProof == nil {
+		a.phiProof = map[*ssa.Phi]bool{}
+	}
+	a.phiProof[phi] = true
+	defer delete(a.phiProof, phi)
+	if a.edgeCtx == nil {
+		a.edgeCtx = map[ssa.Instruction][]TFact{}
+	}
+	n := 0
+	for i, e := range phi.Edges {
+		pred := phi.Block().Preds[i]
+		if a.deadPhiEdge(phi, i) || len(pred.Instrs) == 0 {
+			continue
+		}
+		n++
+		last := pred.Instrs[0]
+		var ef []TFact
+		for _, f := range edgeFacts(pred, phi.Block()) {
+			ef = append(ef, a.lift(f, 2)...)
+		}
+		old, had := a.edgeCtx[last]
+		a.edgeCtx[last] = append(append([]TFact{}, old...), ef...)
+		ok2, _ := a.proveLEd(x, Term{V: e, Len: true, Cap: y.Cap}, last, depth-1)
+		if had {
+			a.edgeCtx[last] = old
+		} else {
+			delete(a.edgeCtx, last)
+		}
+		if !ok2 {
+			return false, ""
+		}
+	}
+	if n == 0 {
+		return false, ""
+	}
+	return true, "holds for the length of the operand of every incoming edge of the phi"
 }
 
 // ioCountCall: Read/ReadFrom/Write/WriteTo/ReadFull-style calls whose first result is a byte
